@@ -43,7 +43,8 @@ CLAIMED = {
               "The check runs real kernels, models and specs on exhaustive small pairs, gallop-depth sweeps, random "
               "clustered arrays, strided views and adversarial neighbours."),
         design_ref="DESIGN.md 7 (C12)",
-        note=COMMON_NOTE + "Strides are abstracted in the model (pointer = logical index). No axioms.",
+        note=COMMON_NOTE + "Strides are abstracted in the model (pointer = logical index); the harness passes strided and "
+             "reversed views of every array argument and requires the answer of the contiguous copy. No axioms.",
         technique="Coq proof (loop invariants over fuelled line-level kernel models) + model/impl/spec correspondence",
     ),
     "C13": dict(
@@ -68,8 +69,10 @@ CLAIMED = {
               "postings and terminates, and slop_freqs on an indexed corpus is safe incl. the scatter. Runtime tie "
               "(partial): impl == model on three memory layouts (exact-fit; interior, possibly strided views whose "
               "neighbour and gap words are adversarial; other fillers) which must agree with each other, and an "
-              "AddressSanitizer build of the working tree runs the kernel inputs plus index / query / slop / score "
-              "workloads."),
+              "AddressSanitizer build of the working tree runs the kernel inputs (incl. strided, reversed views of every "
+              "array argument) plus index / query / slop / score workloads and a `contract` workload of well-typed calls "
+              "whose arguments do not fit together (short doc_lens / counts, an as_dense index beyond the size, a slop phrase "
+              "of more than 64 terms, reversed / broadcast / record-field views): each must raise or be harmless."),
         design_ref="DESIGN.md 7 (C14)",
         note=COMMON_NOTE + "The theorem is about the model's accesses; real accesses are observed by ASan, not proved. "
              "Compiler-introduced accesses, alignment and the allocator are outside the model. No axioms.",
@@ -86,7 +89,8 @@ CLAIMED = {
               "workers and tokenizers."),
         design_ref="DESIGN.md 7 (C01)",
         note=COMMON_NOTE + "Tokenizer output is the model's input (token ids by any injection); pandas/numpy glue and "
-             "thread scheduling are exercised, not modelled. No axioms.",
+             "thread scheduling are exercised, not modelled. Corpora of 2^28 rows or more are rejected by the repaired code "
+             "(ValueError) and excluded by wf_docs; they cannot be indexed within the check's time budget. No axioms.",
         technique="Coq proof (composition of codec, kernel and sorting lemmas) + three-way correspondence",
     ),
     "C02": dict(
